@@ -22,8 +22,22 @@ CMPOPS = {ast.Eq: '==', ast.NotEq: '!=', ast.Lt: '<', ast.LtE: '<=',
           ast.Gt: '>', ast.GtE: '>=', ast.Is: 'is', ast.IsNot: 'is not',
           ast.In: 'in', ast.NotIn: 'not in'}
 
+FLIPPED = {'<': '>', '<=': '>=', '>': '<', '>=': '<=', '==': '==', '!=': '!='}
 ALIASES = {'np': 'numpy', 'xr': 'xarray', 'sp': 'scipy', 'ne': 'numexpr'}
 MAX_UNROLL = 24
+
+
+def norm_cmp(o, left, right):
+    """one canonical orientation per comparison: a literal goes to the right;
+    otherwise > / >= are written as < / <= with swapped operands"""
+    if o in FLIPPED:
+        llit = left[0] in ('num',) or (left[0] == 'un' and left[2][0] == 'num')
+        rlit = right[0] in ('num',) or (right[0] == 'un' and right[2][0] == 'num')
+        if llit and not rlit:
+            return ('cmp', FLIPPED[o], right, left)
+        if not llit and not rlit and o in ('>', '>='):
+            return ('cmp', FLIPPED[o], right, left)
+    return ('cmp', o, left, right)
 
 
 class Outcome:
@@ -491,8 +505,13 @@ class Interp:
             return self.exec_block(st.body, env, frame, cond)
         if d is False:
             return self.exec_block(st.orelse, env, frame, cond)
-        a = self.exec_block(st.body, dict(env), frame, cond + ((c, True),))
-        b = self.exec_block(st.orelse, dict(env), frame, cond + ((c, False),))
+        body, orelse = st.body, st.orelse
+        while c[0] == 'un' and c[1] == 'not':
+            # `if not c: A else: B` is analysed as `if c: B else: A`
+            c = c[2]
+            body, orelse = orelse, body
+        a = self.exec_block(body, dict(env), frame, cond + ((c, True),))
+        b = self.exec_block(orelse, dict(env), frame, cond + ((c, False),))
         outs = [o for o in a + b if o.kind != 'fall']
         falls = [o for o in a + b if o.kind == 'fall']
         if len(falls) == 2:
@@ -1095,7 +1114,8 @@ class Interp:
         parts = []
         for op, r in zip(e.ops, e.comparators):
             right = self.eval(r, env, frame, cond)
-            parts.append(('cmp', CMPOPS[type(op)], left, right))
+            o = CMPOPS[type(op)]
+            parts.append(norm_cmp(o, left, right))
             left = right
         t = parts[0] if len(parts) == 1 else ('bool', 'and', tuple(parts))
         d = self.decide_cond(t) if self.decide is None else None
@@ -1110,8 +1130,12 @@ class Interp:
             return self.eval(e.body, env, frame, cond)
         if d is False:
             return self.eval(e.orelse, env, frame, cond)
-        a = self.eval(e.body, env, frame, cond + ((c, True),))
-        b = self.eval(e.orelse, env, frame, cond + ((c, False),))
+        eb, eo = e.body, e.orelse
+        while c[0] == 'un' and c[1] == 'not':
+            c = c[2]
+            eb, eo = eo, eb
+        a = self.eval(eb, env, frame, cond + ((c, True),))
+        b = self.eval(eo, env, frame, cond + ((c, False),))
         return a if a == b else ('ite', c, a, b)
 
     def e_Tuple(self, e, env, frame, cond):
